@@ -822,7 +822,9 @@ class _ExecutorManagerThread(threading.Thread):
         self.executor_flags.flag_as_broken(bpe)
 
         # Mark pending tasks as failed.
-        for work_item in self.pending_work_items.values():
+        # Iterate over a copy: the queue feeder thread can concurrently remove
+        # an item from the dict when it fails to pickle it.
+        for work_item in list(self.pending_work_items.values()):
             try:
                 work_item.future.set_exception(bpe)
             except InvalidStateError:
